@@ -34,20 +34,21 @@ import (
 //   mesh       DialContext/Accept between real Netceptor nodes (stream-listener rule of conn.go)
 
 type tlsVec struct {
-	Fam       string     `json:"fam"`
-	Issuer    string     `json:"issuer"`
-	Validity  string     `json:"validity"`
-	Usage     string     `json:"usage"`
-	Names     string     `json:"names"`
-	Pins      []string   `json:"pins"`
-	Role      string     `json:"role"`
-	Mode      string     `json:"mode"`
-	Src       []string   `json:"src"`
-	NameKind  string     `json:"namekind"`
-	CertNames [][]string `json:"certnames"`
-	SeqPins   []seqPin   `json:"seqpins"`
-	Calls     []seqCall  `json:"calls"`
-	Clock     *clockSpec `json:"clock,omitempty"`
+	Fam       string      `json:"fam"`
+	Issuer    string      `json:"issuer"`
+	Validity  string      `json:"validity"`
+	Usage     string      `json:"usage"`
+	Names     string      `json:"names"`
+	Pins      []string    `json:"pins"`
+	Role      string      `json:"role"`
+	Mode      string      `json:"mode"`
+	Src       []string    `json:"src"`
+	NameKind  string      `json:"namekind"`
+	CertNames [][]string  `json:"certnames"`
+	SeqPins   []seqPin    `json:"seqpins"`
+	Calls     []seqCall   `json:"calls"`
+	Clock     *clockSpec  `json:"clock,omitempty"`
+	Lookup    *lookupSpec `json:"lookup,omitempty"`
 	Conds     struct {
 		Chain bool `json:"chain"`
 		Time  bool `json:"time"`
@@ -577,9 +578,11 @@ func init() {
 
 			return
 		}
-		var table, stream, seqs, clocks []*tlsVec
+		var table, stream, seqs, clocks, lookups []*tlsVec
 		for i := range vecs {
-			if vecs[i].Fam == "clock" {
+			if vecs[i].Fam == "lookup" {
+				lookups = append(lookups, &vecs[i])
+			} else if vecs[i].Fam == "clock" {
 				clocks = append(clocks, &vecs[i])
 			} else if vecs[i].Fam == "seq" {
 				seqs = append(seqs, &vecs[i])
@@ -594,6 +597,7 @@ func init() {
 		sort.Slice(clocks, func(i, j int) bool {
 			return fmt.Sprint(*clocks[i].Clock, *clocks[i]) < fmt.Sprint(*clocks[j].Clock, *clocks[j])
 		})
+		sort.Slice(lookups, func(i, j int) bool { return fmt.Sprint(*lookups[i].Lookup) < fmt.Sprint(*lookups[j].Lookup) })
 		sort.Slice(seqs, func(i, j int) bool { return fmt.Sprint(*seqs[i]) < fmt.Sprint(*seqs[j]) })
 		sort.Slice(stream, func(i, j int) bool { return fmt.Sprint(*stream[i]) < fmt.Sprint(*stream[j]) })
 
@@ -717,10 +721,16 @@ func init() {
 			defer func() { nodes <- n }()
 			runSeq(env, n, seqs[i], i)
 		})
+		// lookup independence: one named client configuration per vector, looked up repeatedly on one node
+		parallel(len(lookups), workers, func(i int) {
+			n := <-nodes
+			defer func() { nodes <- n }()
+			runLookup(env, n, lookups[i], i)
+		})
 		cancel()
 		res.mu.Lock()
-		res.Evaluations = len(table) + res.Counters["vectors_seq"] + res.Counters["vectors_clock"]
-		res.Distinct = ndistinct + res.Counters["vectors_seq"] + res.Counters["vectors_clock"]
+		res.Evaluations = len(table) + res.Counters["vectors_seq"] + res.Counters["vectors_clock"] + res.Counters["vectors_lookup"]
+		res.Distinct = ndistinct + res.Counters["vectors_seq"] + res.Counters["vectors_clock"] + res.Counters["vectors_lookup"]
 		res.mu.Unlock()
 		res.add("certificates_made", int(p.made))
 
